@@ -394,18 +394,44 @@ def _binary_ops(shape):
     if N >= 1:
         # scale by a sparse factor along mode 0: factor is a 1-way sparse tensor built from W's first fibre -> skip; covered by dense
         pass
+    def rhs_kept(R, before):
+        # the right-hand side is an operand: after the write it must still be the well-formed tensor it was
+        after = canon(R, False)
+        if after[1] != before[1] or not np.array_equal(after[2], before[2]):
+            raise Malformed("rhs_changed")
+
     def w_sparse_rhs(S, R):
         key = tuple(slice(None) for _ in range(N))
+        before = canon(R, False)
         S[key] = R
+        rhs_kept(R, before)
         return canon(S, False)
     ops.append(("write_all_sparse_rhs", "sptensor.__setitem__", w_sparse_rhs))
+    if any(x >= 2 for x in shape):
+        # a region that does not start at the origin (slice starts / steps), right-hand side = the other operand's
+        # entries of that region
+        for kname, mk in (("offset", lambda x: slice(1, None) if x >= 2 else slice(None)),
+                          ("step", lambda x: slice(None, None, 2) if x >= 2 else slice(None)),
+                          ("list", lambda x: list(range(x - 1, 0, -1)) if x >= 2 else slice(None))):
+            def w_region(S, R, mk=mk):
+                key = tuple(mk(x) for x in shape)
+                V = R[key]
+                if not hasattr(V, "subs"):
+                    raise Malformed("region_read_not_sparse")
+                before = canon(V, False)
+                S[key] = V
+                rhs_kept(V, before)
+                return canon(S, False)
+            ops.append(("write_" + kname + "_sparse_rhs", "sptensor.__setitem__", w_region))
     # the same with the full extent of a mode named by an index list (not ascending) instead of a slice
     full = [[["slice", None, None], ["list", list(range(s - 1, -1, -1))]] for s in shape]
     for forms in itertools.product(*full):
         if all(f[0] == "slice" for f in forms):
             continue
         def w_forms(S, R, forms=forms):
+            before = canon(R, False)
             S[tuple(_real_index(f) for f in forms)] = R
+            rhs_kept(R, before)
             return canon(S, False)
         ops.append(("write_lists_sparse_rhs", "sptensor.__setitem__", w_forms))
     return ops
